@@ -267,7 +267,7 @@ Proof.
   unfold transform, conv_tf.
   cbv beta iota zeta delta [t_s t_e t_has_ss t_sy t_sx t_skirt t_ifm t_dot t_concat t_kdh t_split t_up t_wrap tf_width].
   change (1 =? 0) with false. cbv iota.
-  rewrite tf_height_up1. rewrite !Z.mul_1_r.
+  rewrite !Z.sub_0_r. rewrite tf_height_up1. rewrite !Z.mul_1_r, !Z.add_0_r.
   set (st := ch (fst b)) in *. set (en := ch (snd b)) in *. set (woff := ch (o_woff o)) in *.
   set (H := ch (o_ifm o)) in *. set (W := cw (o_ifm o)) in *.
   rewrite Bw0, Bw1 in *. replace (cw (o_woff o) - cw (o_woff o)) with 0 in * by lia.
